@@ -32,6 +32,9 @@ def main():
     ap.add_argument("--tier", default=os.environ.get("VERIF_TIER", "quick"), choices=["quick", "thorough"])
     ap.add_argument("--replay")
     ap.add_argument("--setup", action="store_true")
+    ap.add_argument("--corr-only", action="store_true", help=argparse.SUPPRESS)
+    ap.add_argument("--budget", type=float, default=90.0, help=argparse.SUPPRESS)
+    ap.add_argument("--out", help=argparse.SUPPRESS)
     a = ap.parse_args()
     seed = int(os.environ.get("VERIF_SEED", "0") or 0)
     try:
@@ -41,6 +44,8 @@ def main():
             ap.error("property id required")
         if a.replay:
             return engine.replay(a.pid, a.replay)
+        if a.corr_only:
+            return engine.corr_only(a.pid, seed, a.budget, a.out)
         return engine.check(a.pid, a.tier, seed)
     except common.Infra as e:
         print("INFRASTRUCTURE ERROR (no verdict): %s" % e)
